@@ -1082,6 +1082,7 @@ def shard(seed, n_per_name, n_prop, max_keys=4):
                 if ctx.known(v.key):
                     if count:
                         stats.excluded_known[v.key] += 1
+                        stats.case(None, classes=["known-finding-case"])
                     return
                 if v.key in suppressed:
                     return
